@@ -247,12 +247,14 @@ extern int mpt_connection_dispatch(MPT_STRUCT(connection) *con, MPT_TYPE(event_h
 		if ((len = mpt_message_buf2id(data + slen, ilen, &id)) < 0) {
 			mpt_log(0, _func, MPT_LOG(Error), "%s (%i)",
 			        MPT_tr("bad message length"), (int) ilen);
-			buf->_used = slen;
+			buf->_used = 0;
 			return MPT_ERROR(BadValue);
 		}
 		if (!(ans = mpt_command_get(&con->_wait, id))) {
 			mpt_log(0, _func, MPT_LOG(Error), "%s: %s (" PRIx64 ")",
 			        MPT_tr("reply processing failed"), MPT_tr("message not registered"), id);
+			/* the datagram is consumed: nothing of it may stay in front of the next outgoing message */
+			buf->_used = 0;
 			return MPT_ERROR(MissingBuffer);
 		}
 		msg.base = data + hlen;
@@ -264,6 +266,10 @@ extern int mpt_connection_dispatch(MPT_STRUCT(connection) *con, MPT_TYPE(event_h
 			void *rarg = ans->arg;
 			ans->cmd = 0;
 			len = rcmd(rarg, &msg);
+		}
+		/* the datagram is consumed (unless the command started a new message) */
+		if ((buf = con->out.buf._buf) && !(con->out.state & MPT_OUTFLAG(Active))) {
+			buf->_used = 0;
 		}
 		if (len < 0) {
 			mpt_log(0, _func, MPT_LOG(Error), "%s (%i)",
@@ -323,6 +329,10 @@ extern int mpt_connection_dispatch(MPT_STRUCT(connection) *con, MPT_TYPE(event_h
 			msg.used = sizeof(hdr);
 			msg.cont = 0;
 			rc->_vptr->reply(rc, &msg);
+		}
+		/* the datagram is consumed (unless the handler started a new message) */
+		if ((buf = con->out.buf._buf) && !(con->out.state & MPT_OUTFLAG(Active))) {
+			buf->_used = 0;
 		}
 		return ret;
 	}
